@@ -110,9 +110,21 @@ func vfSyncVote(key *ecdsa.PrivateKey, chainID string, idx uint32, h uint64, rou
 // vfSyncCommit makes a commit for (h, id) signed by the validators in signers (positions in the
 // validator set); the others are absent.
 func vfSyncCommit(vals *types.ValidatorSet, keyOf map[common.Address]*ecdsa.PrivateKey, chainID string, h uint64, round uint32, id types.BlockID, signers map[int]bool) *types.Commit {
+	return vfSyncCommitNil(vals, keyOf, chainID, h, round, id, signers, nil)
+}
+
+// vfSyncCommitNil: as vfSyncCommit, and the validators in nils (not in signers) precommit nil in
+// that round (genuine signatures; the commit carries them with BlockIDFlagNil).
+func vfSyncCommitNil(vals *types.ValidatorSet, keyOf map[common.Address]*ecdsa.PrivateKey, chainID string, h uint64, round uint32, id types.BlockID, signers, nils map[int]bool) *types.Commit {
 	vs := types.NewVoteSet(chainID, h, round, kproto.PrecommitType, vals)
 	for i, val := range vals.Validators {
 		if !signers[i] {
+			if nils[i] {
+				v := vfSyncVote(keyOf[val.Address], chainID, uint32(i), h, round, types.BlockID{}, 1700000000+int64(h)*10)
+				if _, err := vs.AddVote(v); err != nil {
+					panic(err)
+				}
+			}
 			continue
 		}
 		v := vfSyncVote(keyOf[val.Address], chainID, uint32(i), h, round, id, 1700000000+int64(h)*10)
@@ -248,7 +260,14 @@ func TestVerifC01Sync(t *testing.T) {
 				prop := vals.Validators[r.Intn(n)].Address
 				blk, ps := builder.bo.CreateProposalBlock(h, builder.state, prop, last)
 				id := types.BlockID{Hash: blk.Hash(), PartsHeader: ps.Header()}
-				cm := vfSyncCommit(vals, keyOf, chainID, h, uint32(1+r.Intn(2)), id, quorum())
+				q := quorum()
+				nils := map[int]bool{}
+				for i := 0; i < n; i++ {
+					if !q[i] && r.Chance(50) {
+						nils[i] = true
+					}
+				}
+				cm := vfSyncCommitNil(vals, keyOf, chainID, h, uint32(1+r.Intn(2)), id, q, nils)
 				builder.bo.SaveBlock(blk, ps, cm)
 				st, _, err := builder.exec.ApplyBlock(builder.state, id, blk)
 				if err != nil {
@@ -301,7 +320,35 @@ func TestVerifC01Sync(t *testing.T) {
 				first, second := blocks[h], blocks[h+1]
 				// forgeries first (none may be adopted), then the genuine pair
 				for tries := 0; tries < 3; tries++ {
-					switch r.Intn(7) {
+					switch r.Intn(9) {
+					case 7: // forged block signed by the faulty validators, glued to genuine NIL precommits of
+						// correct validators from a failed round: every signature verifies, more than 2/3
+						// of the power signed, less than 1/3 signed the block
+						hd := first.Header()
+						hd.GasLimit--
+						forged := types.NewBlock(hd, first.Transactions(), first.LastCommit(), first.Evidence().Evidence, trie.NewStackTrie(nil))
+						fid := types.BlockID{Hash: forged.Hash(), PartsHeader: forged.MakePartSet(types.BlockPartSizeBytes).Header()}
+						nils := map[int]bool{}
+						for i := 0; i < n; i++ {
+							if !faulty[i] && !r.Chance(15) {
+								nils[i] = true
+							}
+						}
+						rd := uint32(1 + r.Intn(2))
+						offer(forged, withCommit(second, vfSyncCommitNil(vals, keyOf, chainID, h, rd, fid, faulty, nils)), "forged-block-faulty-commit-plus-nil-precommits")
+					case 8: // genuine block, at most 2/3 signed it, the others precommitted nil in that round
+						few := map[int]bool{}
+						nils := map[int]bool{}
+						var sum int64
+						for i, v := range vals.Validators {
+							if 3*(sum+v.VotingPower) <= 2*total {
+								few[i] = true
+								sum += v.VotingPower
+							} else {
+								nils[i] = true
+							}
+						}
+						offer(first, withCommit(second, vfSyncCommitNil(vals, keyOf, chainID, h, 1, ids[h], few, nils)), "commit-below-quorum-plus-nil-precommits")
 					case 0: // another block at this height, "committed" by the faulty validators only
 						hd := first.Header()
 						hd.GasLimit--
